@@ -5,6 +5,7 @@ import (
 	"go/constant"
 	"go/token"
 	"go/types"
+	"os"
 	"sort"
 	"strings"
 
@@ -158,6 +159,9 @@ type psRoles struct {
 
 func newPathSum(cx *Ctx) *PathSum {
 	ps := &PathSum{cx: cx, funcs: map[string]*ssa.Function{}, closures: map[string]*psClosure{}, fresh: map[string][]string{}, maxDepth: 9, loopBound: 1, pathCap: 30000, noInline: map[*ssa.Function]bool{}, inlineLoops: map[*ssa.Function]bool{}, asEvents: map[*ssa.Function]string{}, eventExtra: map[*ssa.Function][]string{}}
+	if r := os.Getenv("OTTERLINT_RELEVANT"); r != "" {
+		ps.alsoRelevant = strings.Split(r, ",")
+	}
 	if cx.Tier == "thorough" {
 		ps.maxDepth = 12
 		ps.loopBound = 2
